@@ -74,4 +74,40 @@ def bindNames {α : Type} (res : Name → Name) (disk : List (Name × α)) : Lis
     | some x => (i, x) :: bindNames res disk r
     | none => bindNames res disk r
 
+/-! ## Which tokens belong to a file name
+
+TeX §526 (`scan_file_name`): after skipping blanks, tokens are taken (expanded) until one with
+`cur_cmd > other_char` or `cur_chr > 255` — it is put back — or until `more_name` answers false,
+which it does for a space (the space is consumed). The command codes up to `other_char` = 12
+are the character categories 1–4, 6–8 (braces, `$`, `&`, `#`, `^`, `_`), 10 (space), 11 and 12:
+**every character token except a space belongs to the name**, whatever its category; control
+sequences and active characters (commands) end it and stay. `FileLocation::parse` takes
+`t.char()`, which is `Some` for exactly the character tokens (not for `CommandRef`s), after the
+test for a space: the same rule. A token is `(character, category)`; category 13 and a
+control sequence (category 16 here) are commands. -/
+
+/-- S: TeX §526. `some true`: part of the name; `some false`: ends the name and is consumed
+(space); `none`: ends the name and is put back. -/
+def nameTokTeX (cat : Nat) : Option Bool :=
+  if cat = 10 then some false
+  else if cat ∈ [1, 2, 3, 4, 6, 7, 8, 11, 12] then some true
+  else none
+
+/-- M: `FileLocation::parse`: a `Space` value breaks; `t.char()` is `None` exactly for command
+references (control sequences, active characters). -/
+def nameTokCode (cat : Nat) : Option Bool :=
+  if cat = 10 then some false
+  else if cat = 13 ∨ cat ≥ 16 then none
+  else if cat = 0 ∨ cat = 5 ∨ cat = 9 ∨ cat = 14 ∨ cat = 15 then none   -- never token categories
+  else some true
+
+/-- The name at the front of a token list and the number of tokens consumed. -/
+def takeName (rule : Nat → Option Bool) : List (Nat × Nat) → Name × Nat
+  | [] => ([], 0)
+  | (c, cat) :: r =>
+    match rule cat with
+    | some true => (c :: (takeName rule r).1, (takeName rule r).2 + 1)
+    | some false => ([], 1)
+    | none => ([], 0)
+
 end C19
